@@ -302,6 +302,40 @@ pub fn run(ctx: &Ctx) -> i32 {
         }
         _ => unreachable!(),
     }
+    // Thorough tier: the property's own workload again with fresh random draws (the exhaustive
+    // sub-spaces are the same, their random surroundings differ), as many rounds as fit in a few
+    // minutes: a trigger that needs two independent fields to take particular values at once
+    // gets rounds x samples chances.
+    if ctx.thorough() && ctx.prop != "C01" {
+        type W0 = fn(&Ctx, &mut Collector, &mut serde_json::Value);
+        let own: Option<W0> = match ctx.prop.as_str() {
+            "C02" => Some(c02),
+            "C03" => Some(c03),
+            "C04" => Some(c04),
+            "C06" => Some(c06),
+            "C07" => Some(c07),
+            "C08" => Some(c08),
+            "C09" => Some(c09),
+            "C10" => Some(c10),
+            "C11" => Some(c11),
+            _ => None,
+        };
+        if let Some(f) = own {
+            let t0 = std::time::Instant::now();
+            let mut rounds = 1u64;
+            let budget = std::env::var("VERIF_THOROUGH_SECS").ok().and_then(|v| v.parse().ok()).unwrap_or(240u64);
+            while t0.elapsed().as_secs() < budget && rounds < 64 && col.by_sig.is_empty() {
+                ctx.salt.store(rounds, std::sync::atomic::Ordering::Relaxed);
+                let mut dummy = json!({});
+                f(ctx, &mut col, &mut dummy);
+                rounds += 1;
+            }
+            ctx.salt.store(0, std::sync::atomic::Ordering::Relaxed);
+            if let Some(o) = extra.as_object_mut() {
+                o.insert("thorough_rounds".into(), json!(rounds));
+            }
+        }
+    }
     // Companion workloads: the frame judge evaluates the clauses of every decoder property on
     // every frame, but a finding only counts in the run of its own property. So each decoder check
     // also drives the quick-tier workloads of the other decoder properties (blank identifications,
